@@ -36,6 +36,14 @@ def lex_tokens(text):
             out.append(('com', ' '.join(text[i:j].split())))
             i = j
             continue
+        if text.startswith('`\\`"', i):
+            out.append(('sym', '`\\`"'))
+            i += 4
+            continue
+        if text.startswith('`"', i):
+            out.append(('sym', '`"'))
+            i += 2
+            continue
         if c == '"':
             j = i + 1
             while j < n and text[j] != '"':
@@ -69,7 +77,11 @@ def tokens_of(text):
 
 
 def ref_tokens(toks):
-    return tokens_of('\n'.join(t.text for t in toks))
+    parts = []
+    for t in toks:
+        parts.append(t.text)
+        parts.append('\n' if '//' in t.text else ' ')
+    return tokens_of(''.join(parts))
 
 
 def token_offsets(text):
@@ -269,6 +281,15 @@ def origin_mismatches(case, files_text, real, toks):
     text = real['text']
     origins = real['origins']
     offs = token_offsets(text)
+    # a kept directive is one reference token; align it word by word
+    toks2 = []
+    for r in toks:
+        if r.prov[0] == 'kept' and len(r.text.split()) > 1:
+            for w in r.text.split():
+                toks2.append(Tok(w, r.prov))
+        else:
+            toks2.append(r)
+    toks = toks2
     if len(offs) != len(toks) or [t for t, _ in offs] != [r.text for r in toks]:
         return []   # layout not whitespace-separated: provenance not comparable token by token
     for (tt, o), ref in zip(offs, toks):
